@@ -124,7 +124,8 @@ pub fn escaped_word_start(line: &str) -> usize {
         }
 
         if c == '\\' {
-            found_bs = true;
+            // (a second backslash is the escaped one, not an escape)
+            found_bs = !found_bs;
             continue;
         }
         if c == ' ' && !found_bs && !with_quote {
